@@ -57,14 +57,21 @@ Hypothesis Hng : forall n e, alookup p n = Some e -> no_group e = true.
 Hypothesis Htgt : forall n e d, alookup p n = Some e -> In d (expr_reads e) -> nkind d <> KExternal.
 Hypothesis Hkeys : forall n e, alookup p n = Some e -> is_mexec_kind (nkind n) = true.
 
+(** the invariant between operations: relative to some operation start *)
+Definition BInv (inp : inputs) (s : state) : Prop := exists sA, MInv p rk sA [] inp s.
+
+Lemma BInv_start : forall inp s, BInv inp s -> MInv p rk (set_log s []) [] inp (set_log s []).
+Proof. intros inp s [sA HI]. eapply MInv_rebase; [| | | | | |exact HI]; try reflexivity. left. reflexivity. Qed.
+
 Lemma root_query : forall fuel inp s n o fr ms s1,
-  MInv p rk [] inp s -> nkind n <> KExternal ->
+  BInv inp s -> nkind n <> KExternal ->
   query_for p None fuel [] CUser None n (set_log s []) = Ok (o, fr, ms, s1) ->
-  MInv p rk [] inp s1 /\ exists i, get_info s1 n = Some i /\ i_verified i = s_ts s1 /\ o = QValue (Some (i_value i)).
+  MInv p rk (set_log s []) [] inp s1 /\
+  exists i, get_info s1 n = Some i /\ i_verified i = s_ts s1 /\ o = QValue (Some (i_value i)).
 Proof.
-  intros fuel inp s n o fr ms s1 HI Hk Eq.
-  assert (HI0 : MInv p rk ([] ++ []) inp (set_log s [])) by (apply MInv_log; exact HI).
-  destruct (proj1 (msound_all p rk Hrk Hproj Hng Htgt Hkeys fuel) inp [] [] [] CUser None n _ o fr ms s1
+  intros fuel inp s n o fr ms s1 HB Hk Eq.
+  pose proof (BInv_start inp s HB) as HI0.
+  destruct (proj1 (msound_all p rk (set_log s []) Hrk Hproj Hng Htgt Hkeys fuel) inp [] [] [] CUser None n _ o fr ms s1
               HI0 (StkOk_nil rk n) (fun _ => eq_refl) Hk I eq_refl eq_refl (or_introl eq_refl) Eq)
     as (HI1 & _ & _ & i & Hi & Hv & Ho).
   split; [exact HI1|]. exists i. auto.
@@ -72,31 +79,32 @@ Qed.
 
 (** one operation keeps the invariant (a session must not have run out of fuel) *)
 Lemma mstep_inv : forall fuel pfuel s o s' r inp,
-  MInv p rk [] inp s -> op_in_scope o -> step_f fuel pfuel p s o = (s', r) ->
+  BInv inp s -> op_in_scope o -> step_f fuel pfuel p s o = (s', r) ->
   (forall sets b, o = OSession sets b -> r_out r <> RFuel) ->
-  MInv p rk [] (apply_op inp o) s'.
+  BInv (apply_op inp o) s'.
 Proof.
-  intros fuel pfuel s o s' r inp HI Hsc H Hfuel. destruct o as [sets b|n|w v|].
+  intros fuel pfuel s o s' r inp HB Hsc H Hfuel. pose proof (BInv_start inp s HB) as HI0. destruct o as [sets b|n|w v|].
   - cbn [op_in_scope] in Hsc. subst b. rewrite step_f_session in H. cbv zeta in H.
     destruct (fold_left fsess_step sets (set_ts (set_log s []) (s_ts (set_log s []) + 1)%N, [], []))
       as [[s1 rs] batch] eqn:Ef.
     destruct (propagate pfuel (set_visited (set_stat s1 0%N) []) batch) as [s4| | |] eqn:Ep;
       inversion H; subst; try (exfalso; eapply Hfuel; eauto; reflexivity).
-    cbn [apply_op]. eapply (MInv_commit p rk Hrk Hproj inp (set_log s [])); eauto. apply MInv_log. exact HI.
+    cbn [apply_op]. exists s'. eapply (MInv_commit p rk Hrk Hproj _ inp (set_log s [])); eauto.
   - unfold step_f in H. cbn [apply_op]. cbn [op_in_scope] in Hsc.
     destruct (query_for p None fuel [] CUser None n (set_log s [])) as [[[[o fr] ms] s1]| | |] eqn:Eq.
-    + destruct (root_query _ _ _ _ _ _ _ _ HI Hsc Eq) as [HI1 _].
-      destruct o as [[z|]|]; inversion H; subst; exact HI1.
-    + inversion H. subst. apply MInv_log. exact HI.
-    + inversion H. subst. apply MInv_log. exact HI.
-    + inversion H. subst. apply MInv_log. exact HI.
+    + destruct (root_query _ _ _ _ _ _ _ _ HB Hsc Eq) as [HI1 _].
+      destruct o as [[z|]|]; inversion H; subst; eexists; exact HI1.
+    + inversion H. subst. eexists. exact HI0.
+    + inversion H. subst. eexists. exact HI0.
+    + inversion H. subst. eexists. exact HI0.
   - destruct Hsc.
-  - cbn in H. inversion H. subst. cbn [apply_op]. apply MInv_restart. apply MInv_log. exact HI.
+  - cbn in H. inversion H. subst. cbn [apply_op]. destruct HB as [sA HI]. exists (restart (set_log s [])).
+    eapply MInv_rebase; [| | | | | |exact HI]; try reflexivity. right. reflexivity.
 Qed.
 
 (** a value answered by a query is the from-scratch value *)
 Lemma mstep_query_sound : forall fuel pfuel s n s' r inp z,
-  MInv p rk [] inp s -> nkind n <> KExternal ->
+  BInv inp s -> nkind n <> KExternal ->
   step_f fuel pfuel p s (OQuery n) = (s', r) -> r_out r = RValue z -> MSpecI p inp n z.
 Proof.
   intros fuel pfuel s n s' r inp z HI Hk H Hr. unfold step_f in H.
@@ -110,7 +118,7 @@ Proof.
 Qed.
 
 Lemma mrun_sound : forall fuel pfuel ops s inp i n r z,
-  MInv p rk [] inp s -> Forall op_in_scope ops ->
+  BInv inp s -> Forall op_in_scope ops ->
   (forall k sets b rk0, (k < i)%nat -> nth_error ops k = Some (OSession sets b) ->
      nth_error (run_history_f fuel pfuel p s ops) k = Some rk0 -> r_out rk0 <> RFuel) ->
   nth_error ops i = Some (OQuery n) ->
@@ -136,7 +144,7 @@ Theorem model_sound_f : model_sound_statement_f.
 Proof.
   intros fuel pfuel p ops i n r z Hwf Hsc Hfuel Hop Hres Hz.
   destruct (wf_model_facts p Hwf) as (rk & Hrk & Hproj & Hng & Htgt & Hkeys). apply MdlSpec_MSpecI.
-  unfold inputs_after. eapply (mrun_sound p rk Hrk Hproj Hng Htgt Hkeys); eauto. apply MInv_init.
+  unfold inputs_after. eapply (mrun_sound p rk Hrk Hproj Hng Htgt Hkeys); eauto. exists init_state. apply MInv_init.
 Qed.
 
 (** * C01 about the model's own [step] / [run_history] *)
